@@ -154,6 +154,7 @@ class ValProp(Prop):
             out.append(show(['val', t, v]))
         for t, v in zero_tail_cases(g, max(16, self.n(tier) // 20)):
             out.append(show(['val', t, v]))
+        out += chunk_exact_cases(g, max(24, self.n(tier) // 12))
         return out
 
 
@@ -187,6 +188,8 @@ def chunk_exact_cases(g, n):
             cnt = per * (nbytes // 32)
             lim = max(cnt, r.choice([cnt, cnt + 1, 3 * cnt, 1000, 2**40]))
             t, v = ['list', k, lim], ['s'] + [g.val(k, 1) for _ in range(cnt)]
+            if r.random() < 0.3:
+                t = ['vec', k, cnt]
         c = r.random()
         if c < 0.2:
             t, v = ['cont', 'u8', t], ['s', '3', v]
@@ -964,8 +967,8 @@ class DecProp(Prop):
             out.append(show(['dec', ['cont', 'u8', ['union', 'none', t]], 'x', 'x070500000001', 'x']))
         # containers of several byte-like variable-size fields (each accepts any byte string up to its limit): every later
         # offset replaced by 0, by the first offset and by the scope
-        for _ in range(4):
-            fl = [r.choice([['Bl', r.choice([32, 40, 64])], ['list', 'u8', r.choice([32, 48])], ['bl', 512]]) for _ in range(r.choice([2, 2, 3]))]
+        for _ in range(10):
+            fl = [r.choice([['Bl', r.choice([32, 40, 64, 100])], ['Bl', 100], ['list', 'u8', r.choice([32, 48, 100])], ['bl', 512]]) for _ in range(r.choice([2, 2, 3]))]
             if r.random() < 0.5:
                 fl.insert(r.randint(0, len(fl)), r.choice(['u8', 'u32']))
             t = ['cont'] + fl
@@ -1063,6 +1066,21 @@ class DecProp(Prop):
         bump(stats, 'sizes', size_class((len(case[3]) - 1) // 2))
         return ok
 
+    def work(self, case, py, mo, stats):
+        """the decoder's work (number of `deserialize` calls, nested ones included) against the modelled decoder's
+        (`Impl.deserWork`, proved linear in the scope: C10.work_linear)"""
+        out = []
+        a, b, bd = py.get('p.calls'), mo.get('i.work'), mo.get('i.workbound')
+        if a is None or b is None:
+            return out
+        bump(stats, 'ops', 'decode-calls<=%d' % (1 << max(int(a) - 1, 0).bit_length()))
+        if bd is not None and int(a) > int(bd):
+            out.append(F('prop', 'decoding made more nested decode calls than the linear bound W(t)*(scope+1)+A(t) proved for the modelled decoder',
+                         a, 'bound %s (model work %s)' % (bd, b)))
+        elif a != b:
+            out.append(F('corr', 'number of deserialize calls differs from the modelled decoder', a, b))
+        return out
+
 
 class C09(DecProp):
     pid = 'C09'
@@ -1074,6 +1092,7 @@ class C09(DecProp):
     def compare(self, case, py, mo, stats):
         out = []
         ok = self.common(case, py, mo, stats)
+        out += self.work(case, py, mo, stats)
         # decode_bytes (for the bare integer types: the lenient bytes-to-integer helper): whatever it
         # returns must satisfy the invariants of the type
         d0 = py.get('p.decb0')
